@@ -25,6 +25,21 @@ impl Clone for PathAwareValue {
 // stands for indexmap::IndexSet<String> (ParameterizedRule::parameter_names)
 #[verifier::external_body]
 pub struct IndexSetString { _p: u8 }
+
+// stands for the derived Clone impls of the record payload types (their results are only stored in records)
+impl Clone for UnResolved {
+    #[verifier::external_body]
+    fn clone(&self) -> (r: Self) { unimplemented!() }
+}
+impl Clone for QueryResult {
+    #[verifier::external_body]
+    fn clone(&self) -> (r: Self) { unimplemented!() }
+}
+
+// R11: an iterator-adapter expression that only builds the `to` payload of a check record
+// (`qin.rhs.iter().cloned().map(QueryResult::Resolved).collect::<Vec<_>>()`) is replaced by this opaque constructor
+#[verifier::external_body]
+pub fn verif_payload_vec(v: &Vec<Rc<PathAwareValue>>) -> (r: Vec<QueryResult>) { unimplemented!() }
 // ---- type guard/src/rules/errors.rs::Error
 pub enum Error {
         JsonError(ExtError),
@@ -393,6 +408,129 @@ pub enum EvaluationResult {
     EmptyQueryResult(Status),
     QueryValueResult(Vec<(QueryResult, Status)>),
 }
+// ---- raw prelude_binop.rs + operators.rs types
+// hand-written addition to the `eval` prelude for U-binop: the comparator layer (operators.rs) as an ASSUMED trait contract
+pub mod operators {
+    use vstd::prelude::*;
+    use super::*;
+pub struct LhsRhsPair {
+    pub lhs: Rc<PathAwareValue>,
+    pub rhs: Rc<PathAwareValue>,
+}
+
+pub struct QueryIn {
+    pub diff: Vec<Rc<PathAwareValue>>,
+    pub lhs: Vec<Rc<PathAwareValue>>,
+    pub rhs: Vec<Rc<PathAwareValue>>,
+}
+
+pub struct ListIn {
+    pub diff: Vec<Rc<PathAwareValue>>,
+    pub lhs: Rc<PathAwareValue>,
+    pub rhs: Rc<PathAwareValue>,
+}
+
+pub enum Compare {
+    Value(LhsRhsPair),
+    QueryIn(QueryIn),
+    ListIn(ListIn),
+    ValueIn(LhsRhsPair),
+}
+
+pub enum ComparisonResult {
+    Success(Compare),
+    Fail(Compare),
+    NotComparable(NotComparable),
+    RhsUnresolved(UnResolved, Rc<PathAwareValue>),
+}
+
+pub enum ValueEvalResult {
+    LhsUnresolved(UnResolved),
+    ComparisonResult(ComparisonResult),
+}
+
+pub enum EvalResult {
+    Skip,
+    Result(Vec<ValueEvalResult>),
+}
+
+pub struct NotComparable {
+    pub reason: String,
+    pub pair: LhsRhsPair,
+}
+
+
+    // what the comparator computes for (lhs values, rhs values, operator, operator-level not): uninterpreted
+    pub uninterp spec fn cmp_sem(lhs: Seq<QueryResult>, rhs: Seq<QueryResult>, op: CmpOperator, not: bool) -> EvalResult;
+
+    pub trait Comparator {
+        spec fn sem(&self, lhs: Seq<QueryResult>, rhs: Seq<QueryResult>) -> EvalResult;
+
+        fn compare(&self, lhs: &[QueryResult], rhs: &[QueryResult]) -> (r: Result<EvalResult>)
+            ensures
+                r is Ok ==> r->Ok_0 == self.sem(lhs@, rhs@),
+                r is Ok ==> super::flat_len(r->Ok_0) < 0x7fff_ffff;
+    }
+
+    impl Comparator for (CmpOperator, bool) {
+        open spec fn sem(&self, lhs: Seq<QueryResult>, rhs: Seq<QueryResult>) -> EvalResult {
+            cmp_sem(lhs, rhs, self.0, self.1)
+        }
+
+        #[verifier::external_body]
+        fn compare(&self, lhs: &[QueryResult], rhs: &[QueryResult]) -> (r: Result<EvalResult>) { unimplemented!() }
+    }
+}
+use operators::Comparator;
+
+// statuses a single comparator result contributes to the clause (C01): unresolved / not comparable / failed => FAIL,
+// success => PASS; a query-vs-query `in` reports one status per left value (success) or per missing value (fail)
+pub open spec fn ver_statuses(e: operators::ValueEvalResult) -> Seq<Status> {
+    match e {
+        operators::ValueEvalResult::LhsUnresolved(_) => seq![Status::FAIL],
+        operators::ValueEvalResult::ComparisonResult(c) => match c {
+            operators::ComparisonResult::RhsUnresolved(_, _) => seq![Status::FAIL],
+            operators::ComparisonResult::NotComparable(_) => seq![Status::FAIL],
+            operators::ComparisonResult::Success(cmp) => match cmp {
+                operators::Compare::QueryIn(q) => rep(q.lhs@.len(), Status::PASS),
+                _ => seq![Status::PASS],
+            },
+            operators::ComparisonResult::Fail(cmp) => match cmp {
+                operators::Compare::QueryIn(q) => rep(q.diff@.len(), Status::FAIL),
+                _ => seq![Status::FAIL],
+            },
+        },
+    }
+}
+
+pub open spec fn flat_statuses(v: Seq<operators::ValueEvalResult>, n: int) -> Seq<Status>
+    decreases n
+{
+    if n <= 0 { Seq::empty() } else { flat_statuses(v, n - 1) + ver_statuses(v[n - 1]) }
+}
+
+pub open spec fn flat_len(r: operators::EvalResult) -> int {
+    match r {
+        operators::EvalResult::Skip => 0,
+        operators::EvalResult::Result(v) => flat_statuses(v@, v@.len() as int).len() as int,
+    }
+}
+
+// the per-value layer of a binary clause, as a function of the comparator's result
+pub open spec fn bin_view(r: operators::EvalResult) -> EvalRes {
+    match r {
+        operators::EvalResult::Skip => EvalRes::Empty(Status::SKIP),
+        operators::EvalResult::Result(v) => EvalRes::Values(flat_statuses(v@, v@.len() as int)),
+    }
+}
+
+pub proof fn lemma_flat_no_skip(v: Seq<operators::ValueEvalResult>, n: int)
+    requires 0 <= n <= v.len(),
+    ensures forall|i: int| 0 <= i < flat_statuses(v, n).len() ==> flat_statuses(v, n)[i] != Status::SKIP,
+    decreases n
+{
+    if n > 0 { lemma_flat_no_skip(v, n - 1); }
+}
 // ---- raw spec_eval.rs
 pub mod model {
 use vstd::prelude::*;
@@ -577,7 +715,53 @@ pub broadcast proof fn lemma_count_one_more<'a>(a: Seq<Seq<Node<'a>>>, b: Seq<Se
     lemma_count_one_more_x(a, b, Status::SKIP);
 }
 
+// children added since `a`: one more closed child appends its node
+pub broadcast proof fn lemma_new_push<'a>(a: Seq<Seq<Node<'a>>>, b: Seq<Seq<Node<'a>>>, c: Seq<Seq<Node<'a>>>)
+    requires #[trigger] st_extends(a, b), #[trigger] st_one_more(b, c),
+    ensures
+        st_extends(a, c),
+        st_new(a, c) =~= st_new(a, b).push(st_last(c)),
+        kid_statuses(st_new(a, c)) =~= kid_statuses(st_new(a, b)).push(rec_status(st_last(c).rec)),
+{
+    lemma_one_more_extends(b, c);
+    lemma_extends_trans(a, b, c);
+    assert(c.last() == b.last().push(st_last(c)));
+    assert(st_new(a, c) =~= st_new(a, b).push(st_last(c)));
+}
+
+pub broadcast proof fn lemma_new_refl<'a>(a: Seq<Seq<Node<'a>>>)
+    requires a.len() >= 1,
+    ensures #[trigger] st_new(a, a) =~= Seq::<Node<'a>>::empty(),
+{}
+
+// start_record immediately followed by end_record adds exactly one leaf node
+pub broadcast proof fn lemma_open_close_leaf<'a>(s0: Seq<Seq<Node<'a>>>, rec: RecordType<'a>)
+    requires s0.len() >= 1,
+    ensures
+        st_one_more(s0, #[trigger] st_close(s0.push(Seq::empty()), rec)),
+        st_last(st_close(s0.push(Seq::empty()), rec)).rec == rec,
+{
+    let s1 = s0.push(Seq::<Node<'a>>::empty());
+    assert(s1.drop_last() =~= s0);
+    lemma_extends_refl(s1);
+    lemma_open_close(s0, s1, rec);
+}
+
+pub broadcast proof fn lemma_new_concat<'a>(a: Seq<Seq<Node<'a>>>, b: Seq<Seq<Node<'a>>>, c: Seq<Seq<Node<'a>>>)
+    requires #[trigger] st_extends(a, b), #[trigger] st_extends(b, c),
+    ensures
+        st_new(a, c) =~= st_new(a, b) + st_new(b, c),
+        st_new(a, c).subrange(st_new(a, c).len() - st_new(b, c).len(), st_new(a, c).len() as int) =~= st_new(b, c),
+{
+    lemma_extends_trans(a, b, c);
+    assert(c.last().subrange(0, b.last().len() as int) =~= b.last());
+}
+
 pub broadcast group group_stack {
+    lemma_new_concat,
+    lemma_new_push,
+    lemma_new_refl,
+    lemma_open_close_leaf,
     lemma_count_has,
     lemma_count_to_has,
     lemma_count_one_more,
@@ -687,7 +871,10 @@ pub open spec fn er_wf(r: EvalRes) -> bool {
 // Uninterpreted: the clause-level contract only says which polarity bit reaches this layer (C03); what the layer
 // computes for given values is the business of the unary/binary units.
 pub uninterp spec fn un_sem(q: Seq<QueryPart>, lhs: Seq<QueryResult>, op: CmpOperator, negated: bool) -> EvalRes;
-pub uninterp spec fn bin_sem(lhs: Seq<QueryResult>, rhs: Seq<QueryResult>, op: CmpOperator, negated: bool) -> EvalRes;
+// binary clauses: the per-value layer is the view (bin_view, prelude_binop.rs) of what the comparator layer computes
+pub open spec fn bin_sem(lhs: Seq<QueryResult>, rhs: Seq<QueryResult>, op: CmpOperator, negated: bool) -> EvalRes {
+    bin_view(operators::cmp_sem(lhs, rhs, op, negated))
+}
 
 // "all: FAIL iff some value fails, else PASS; some: PASS iff some value passes, else FAIL; an empty (filtered)
 // selection makes the clause SKIP" -- the Empty case carries the status decided by the per-value layer
@@ -721,6 +908,18 @@ pub broadcast proof fn lemma_count_to_has(s: Seq<Status>, n: int, x: Status)
         }
     }
 }
+
+pub open spec fn rep(k: nat, x: Status) -> Seq<Status> {
+    Seq::new(k, |i: int| x)
+}
+
+pub proof fn lemma_er_push(v: Seq<(QueryResult, Status)>, x: (QueryResult, Status))
+    ensures er_statuses(v.push(x)) =~= er_statuses(v).push(x.1),
+{}
+
+pub proof fn lemma_const_push(pre: Seq<Status>, k: nat, x: Status)
+    ensures (pre + rep(k, x)).push(x) =~= pre + rep(k + 1, x),
+{}
 
 pub open spec fn clause_agg(all: bool, r: EvalRes) -> Status {
     match r {
@@ -914,8 +1113,7 @@ fn unary_operation__canary<'r, 'l: 'r, 'loc: 'l>(
         spec_is_unary(cmp.0),
         lhs_query@.len() >= 1,
 { let r = unary_operation(lhs_query, cmp, inverse, context, custom_message, eval_context); assert(false); r }
-// ---- stub guard/src/rules/eval.rs::binary_operation
-#[verifier::external_body]
+// ---- fn guard/src/rules/eval.rs::binary_operation
 fn binary_operation<'value, 'loc: 'value>(
     lhs_query: &'value [QueryPart<'loc>],
     rhs: &[QueryResult],
@@ -924,14 +1122,271 @@ fn binary_operation<'value, 'loc: 'value>(
     custom_message: Option<String>,
     eval_context: &mut dyn EvalContext<'value, 'loc>,
 ) -> (res: Result<EvaluationResult>)
+    requires
+        old(eval_context).stack().len() >= 1,
     ensures
         ((forall|n: Seq<char>| (final(eval_context)).rule_sem(n) == (old(eval_context)).rule_sem(n)) && (forall|q: Seq<QueryPart<'loc>>| (final(eval_context)).query_sem(q) == (old(eval_context)).query_sem(q))),
         res is Ok ==> st_extends(old(eval_context).stack(), final(eval_context).stack()),
         res is Ok ==> old(eval_context).query_sem(lhs_query@) is Some,
         res is Ok ==> er_view(res->Ok_0) == bin_sem(old(eval_context).query_sem(lhs_query@)->Some_0, rhs@, cmp.0, pol(cmp.1, false)),
         res is Ok ==> er_wf(er_view(res->Ok_0)),
-{ unimplemented!() }
-// ---- canary canary:callee:binary_operation
+        // the last |v| records added under the current record are the per-value checks, in order, carrying the statuses
+        res is Ok ==> (er_view(res->Ok_0) matches EvalRes::Values(v) ==> ({
+            let n = st_new(old(eval_context).stack(), final(eval_context).stack());
+            n.len() >= v.len() && kid_statuses(n.subrange(n.len() - v.len(), n.len() as int)) =~= v
+        })),
+{
+    let lhs = eval_context.query(lhs_query)?;
+    let results = cmp.compare(&lhs, rhs)?;
+    match results {
+        operators::EvalResult::Skip => Ok(EvaluationResult::EmptyQueryResult(Status::SKIP)),
+        operators::EvalResult::Result(results) => {
+            let mut statues: Vec<(QueryResult, Status)> = Vec::with_capacity(lhs.len());
+            let ghost rs = results@;
+            let ghost s_q = eval_context.stack();
+            proof {
+                lemma_flat_no_skip(rs, rs.len() as int);
+            }
+
+            for each in it: results
+                invariant
+                    it.seq() == rs,
+                    it.index@ <= rs.len(),
+                    ((forall|n: Seq<char>| (eval_context).rule_sem(n) == (old(eval_context)).rule_sem(n)) && (forall|q: Seq<QueryPart<'loc>>| (eval_context).query_sem(q) == (old(eval_context)).query_sem(q))),
+                    st_extends(old(eval_context).stack(), s_q),
+                    st_extends(s_q, eval_context.stack()),
+                    er_statuses(statues@) =~= flat_statuses(rs, it.index@ as int),
+                    kid_statuses(st_new(s_q, eval_context.stack())) =~= flat_statuses(rs, it.index@ as int),
+{
+                match each {
+                    operators::ValueEvalResult::LhsUnresolved(ur) => {
+                        eval_context.start_record(&context)?;
+                        eval_context.end_record(
+                            &context,
+                            RecordType::ClauseValueCheck(ClauseCheck::Comparison(
+                                ComparisonClauseCheck {
+                                    status: Status::FAIL,
+                                    message: None,
+                                    custom_message: custom_message.clone(),
+                                    comparison: cmp,
+                                    from: QueryResult::UnResolved(ur.clone()),
+                                    to: None,
+                                },
+                            )),
+                        )?;
+                        statues.push((QueryResult::UnResolved(ur), Status::FAIL));
+                    }
+
+                    operators::ValueEvalResult::ComparisonResult(
+                        operators::ComparisonResult::RhsUnresolved(urhs, lhs),
+                    ) => {
+                        eval_context.start_record(&context)?;
+                        eval_context.end_record(
+                            &context,
+                            RecordType::ClauseValueCheck(ClauseCheck::Comparison(
+                                ComparisonClauseCheck {
+                                    status: Status::FAIL,
+                                    message: None,
+                                    custom_message: custom_message.clone(),
+                                    comparison: cmp,
+                                    from: QueryResult::Resolved(Rc::clone(&lhs)),
+                                    to: Some(QueryResult::UnResolved(urhs)),
+                                },
+                            )),
+                        )?;
+                        statues.push((QueryResult::Resolved(Rc::clone(&lhs)), Status::FAIL));
+                    }
+
+                    operators::ValueEvalResult::ComparisonResult(
+                        operators::ComparisonResult::NotComparable(nc),
+                    ) => {
+                        eval_context.start_record(&context)?;
+                        eval_context.end_record(
+                            &context,
+                            RecordType::ClauseValueCheck(ClauseCheck::Comparison(
+                                ComparisonClauseCheck {
+                                    status: Status::FAIL,
+                                    message: Some(nc.reason),
+                                    custom_message: custom_message.clone(),
+                                    comparison: cmp,
+                                    from: QueryResult::Resolved(Rc::clone(&nc.pair.lhs)),
+                                    to: Some(QueryResult::Resolved(nc.pair.rhs)),
+                                },
+                            )),
+                        )?;
+                        statues.push((QueryResult::Resolved(nc.pair.lhs), Status::FAIL));
+                    }
+
+                    operators::ValueEvalResult::ComparisonResult(
+                        operators::ComparisonResult::Success(cmp),
+                    ) => match cmp {
+                        operators::Compare::ListIn(lin) => {
+                            eval_context.start_record(&context)?;
+                            eval_context.end_record(
+                                &context,
+                                RecordType::ClauseValueCheck(ClauseCheck::Success),
+                            )?;
+                            statues.push((QueryResult::Resolved(lin.lhs), Status::PASS));
+                        }
+
+                        operators::Compare::QueryIn(qin) => {
+                                                        let ghost pre1 = er_statuses(statues@);
+                            let ghost q1 = qin.lhs@;
+for each in it: qin.lhs
+                                invariant
+                                    it.seq() == q1,
+                                    it.index@ <= q1.len(),
+                                    ((forall|n: Seq<char>| (eval_context).rule_sem(n) == (old(eval_context)).rule_sem(n)) && (forall|q: Seq<QueryPart<'loc>>| (eval_context).query_sem(q) == (old(eval_context)).query_sem(q))),
+                                    st_extends(old(eval_context).stack(), s_q),
+                                    st_extends(s_q, eval_context.stack()),
+                                    er_statuses(statues@) =~= pre1 + rep(it.index@ as nat, Status::PASS),
+                                    kid_statuses(st_new(s_q, eval_context.stack())) =~= pre1 + rep(it.index@ as nat, Status::PASS),
+{
+                                eval_context.start_record(&context)?;
+                                eval_context.end_record(
+                                    &context,
+                                    RecordType::ClauseValueCheck(ClauseCheck::Success),
+                                )?;
+                                                                let ghost sv1 = statues@;
+                                let ghost k1 = it.index@ as nat;
+statues.push((QueryResult::Resolved(each), Status::PASS));
+                                proof {
+                                    lemma_er_push(sv1, statues@.last());
+                                    assert(statues@ =~= sv1.push(statues@.last()));
+                                    lemma_const_push(pre1, k1, Status::PASS);
+                                }
+
+                            }
+                        }
+
+                        operators::Compare::Value(pair) => {
+                            eval_context.start_record(&context)?;
+                            eval_context.end_record(
+                                &context,
+                                RecordType::ClauseValueCheck(ClauseCheck::Success),
+                            )?;
+                            statues.push((QueryResult::Resolved(pair.lhs), Status::PASS));
+                        }
+
+                        operators::Compare::ValueIn(val) => {
+                            eval_context.start_record(&context)?;
+                            eval_context.end_record(
+                                &context,
+                                RecordType::ClauseValueCheck(ClauseCheck::Success),
+                            )?;
+                            statues.push((QueryResult::Resolved(val.lhs), Status::PASS));
+                        }
+                    },
+
+                    operators::ValueEvalResult::ComparisonResult(
+                        operators::ComparisonResult::Fail(cmpr),
+                    ) => match cmpr {
+                        operators::Compare::Value(pair) => {
+                            eval_context.start_record(&context)?;
+                            eval_context.end_record(
+                                &context,
+                                RecordType::ClauseValueCheck(ClauseCheck::Comparison(
+                                    ComparisonClauseCheck {
+                                        status: Status::FAIL,
+                                        message: None,
+                                        custom_message: custom_message.clone(),
+                                        comparison: cmp,
+                                        from: QueryResult::Resolved(Rc::clone(&pair.lhs)),
+                                        to: Some(QueryResult::Resolved(pair.rhs)),
+                                    },
+                                )),
+                            )?;
+                            statues
+                                .push((QueryResult::Resolved(Rc::clone(&pair.lhs)), Status::FAIL));
+                        }
+
+                        operators::Compare::ValueIn(pair) => {
+                            eval_context.start_record(&context)?;
+                            eval_context.end_record(
+                                &context,
+                                RecordType::ClauseValueCheck(ClauseCheck::InComparison(
+                                    InComparisonCheck {
+                                        status: Status::FAIL,
+                                        message: None,
+                                        custom_message: custom_message.clone(),
+                                        comparison: cmp,
+                                        from: QueryResult::Resolved(Rc::clone(&pair.lhs)),
+                                        to: vec![QueryResult::Resolved(pair.rhs)],
+                                    },
+                                )),
+                            )?;
+                            statues
+                                .push((QueryResult::Resolved(Rc::clone(&pair.lhs)), Status::FAIL));
+                        }
+
+                        operators::Compare::ListIn(lin) => {
+                            eval_context.start_record(&context)?;
+                            eval_context.end_record(
+                                &context,
+                                RecordType::ClauseValueCheck(ClauseCheck::InComparison(
+                                    InComparisonCheck {
+                                        status: Status::FAIL,
+                                        message: None,
+                                        custom_message: custom_message.clone(),
+                                        comparison: cmp,
+                                        from: QueryResult::Resolved(Rc::clone(&lin.lhs)),
+                                        to: vec![QueryResult::Resolved(lin.rhs)],
+                                    },
+                                )),
+                            )?;
+                            statues
+                                .push((QueryResult::Resolved(Rc::clone(&lin.lhs)), Status::FAIL));
+                        }
+
+                        operators::Compare::QueryIn(qin) => {
+                            let rhs = verif_payload_vec(&qin.rhs);
+
+                                                        let ghost pre2 = er_statuses(statues@);
+                            let ghost q2 = qin.diff@;
+for lhs in it: qin.diff
+                                invariant
+                                    it.seq() == q2,
+                                    it.index@ <= q2.len(),
+                                    ((forall|n: Seq<char>| (eval_context).rule_sem(n) == (old(eval_context)).rule_sem(n)) && (forall|q: Seq<QueryPart<'loc>>| (eval_context).query_sem(q) == (old(eval_context)).query_sem(q))),
+                                    st_extends(old(eval_context).stack(), s_q),
+                                    st_extends(s_q, eval_context.stack()),
+                                    er_statuses(statues@) =~= pre2 + rep(it.index@ as nat, Status::FAIL),
+                                    kid_statuses(st_new(s_q, eval_context.stack())) =~= pre2 + rep(it.index@ as nat, Status::FAIL),
+{
+                                eval_context.start_record(&context)?;
+                                eval_context.end_record(
+                                    &context,
+                                    RecordType::ClauseValueCheck(ClauseCheck::InComparison(
+                                        InComparisonCheck {
+                                            status: Status::FAIL,
+                                            message: None,
+                                            custom_message: custom_message.clone(),
+                                            comparison: cmp,
+                                            from: QueryResult::Resolved(Rc::clone(&lhs)),
+                                            to: rhs.clone(),
+                                        },
+                                    )),
+                                )?;
+                                                                let ghost sv2 = statues@;
+                                let ghost k2 = it.index@ as nat;
+statues
+                                    .push((QueryResult::Resolved(Rc::clone(&lhs)), Status::FAIL));
+                                proof {
+                                    lemma_er_push(sv2, statues@.last());
+                                    assert(statues@ =~= sv2.push(statues@.last()));
+                                    lemma_const_push(pre2, k2, Status::FAIL);
+                                }
+
+                            }
+                        }
+                    },
+                }
+            }
+            Ok(EvaluationResult::QueryValueResult(statues))
+        }
+    }
+}
+// ---- canary canary:pre:binary_operation
 fn binary_operation__canary<'value, 'loc: 'value>(
     lhs_query: &'value [QueryPart<'loc>],
     rhs: &[QueryResult],
@@ -940,7 +1395,9 @@ fn binary_operation__canary<'value, 'loc: 'value>(
     custom_message: Option<String>,
     eval_context: &mut dyn EvalContext<'value, 'loc>,
 ) -> (res: Result<EvaluationResult>)
-{ let r = binary_operation(lhs_query, rhs, cmp, context, custom_message, eval_context); assert(false); r }
+    requires
+        old(eval_context).stack().len() >= 1,
+{ assert(false); vstd::pervasive::unreached() }
 // ---- stub guard/src/rules/eval_context.rs::resolve_function
 #[verifier::external_body]
 pub fn resolve_function<'value, 'eval, 'loc: 'value>(
@@ -1272,7 +1729,7 @@ fn eval_when_condition_block<'value, 'loc: 'value>(
     resolver.start_record(&when_context)?;
     let block = match eval_conjunction_clauses(conditions, resolver, eval_when_clause) {
         Ok(status) => {
-            if status != Status::PASS {
+            if status == Status::FAIL {
                 resolver.end_record(&when_context, RecordType::WhenCondition(status))?;
                 resolver.end_record(
                     &context,
